@@ -22,6 +22,11 @@ Explains(e) ==
      \/ e.op = "years_since" /\ e.r = YearsSince(e.a, e.b)
      \/ e.op = "misc"       /\ e.quarter = Quarter(e.n) /\ e.ce = YearCe(e.n) /\ e.ndim = DaysInMonth(YearOfDay(e.n), MonthOfDay(e.n)) /\ e.leap = IsLeap(YearOfDay(e.n))
      \* Month::num_days: the calendar length; for a year outside the date range "nothing" is documented, the calendar value is not wrong either
+     \/ e.op = "ndt.acc"    /\ LET n == e.dt.n IN
+                            /\ e.y = YearOfDay(n) /\ e.mo = MonthOfDay(n) /\ e.d = DayOfMonth(n) /\ e.ord = OrdinalOf(n) /\ e.wd = WeekdayOf(n)
+                            /\ e.iy = IsoYearOf(n) /\ e.iw = IsoWeekOf(n) /\ e.mo0 = e.mo - 1 /\ e.d0 = e.d - 1 /\ e.ord0 = e.ord - 1
+                            /\ e.h = e.dt.secs \div 3600 /\ e.mi = (e.dt.secs \div 60) % 60 /\ e.s = e.dt.secs % 60 /\ e.ns = e.dt.frac
+                            /\ e.date = n /\ e.time = [secs |-> e.dt.secs, frac |-> e.dt.frac]
      \/ e.op = "month_days" /\ (IF e.y >= MinYear /\ e.y <= MaxYear THEN e.r = DaysInMonth(e.y, e.m) ELSE e.r \in {-1, DaysInMonth(e.y, e.m)})
   \* the infallible week accessors panic exactly when the bound leaves the range (documented)
   \/ e.op = "week.first" /\ (IF InDates(WeekFirst(e.n, e.start)) THEN NoPanic(e) /\ e.r = WeekFirst(e.n, e.start) ELSE Has(e, "panic"))
